@@ -18,12 +18,24 @@ structure Grow (w w' : World) : Prop where
   arrs : w.arrs.length ≤ w'.arrs.length
   strs : w.strs.length ≤ w'.strs.length
   sets : w.sets.length ≤ w'.sets.length
+  arrLen : ∀ b, b < w.arrs.length → (w.arrAt b).length ≤ (w'.arrAt b).length
 
-theorem Le.grow {w w' : World} (h : Le w w') : Grow w w' := ⟨h.arrs.length_le, h.strs.length_le, h.sets.length_le⟩
+/-- existing arrays untouched (prefix), cells not dropped -/
+theorem Grow.of_prefix {w w' : World} (ha : w.arrs <+: w'.arrs) (hs : w.strs.length ≤ w'.strs.length)
+    (ht : w.sets.length ≤ w'.sets.length) : Grow w w' :=
+  ⟨ha.length_le, hs, ht, fun b hb => by
+    have : w'.arrAt b = w.arrAt b := getD_of_prefix ha hb _
+    rw [this]; exact Nat.le_refl _⟩
+
+theorem Le.grow {w w' : World} (h : Le w w') : Grow w w' :=
+  Grow.of_prefix h.arrs h.strs.length_le h.sets.length_le
+
+theorem sliceOk_grow {w w' : World} (h : Grow w w') {s : Slice} (hs : sliceOk w s) : sliceOk w' s :=
+  ⟨Nat.lt_of_lt_of_le hs.1 h.arrs, Nat.le_trans hs.2.1 (h.arrLen _ hs.1), hs.2.2⟩
 
 theorem Handle.ok_grow {w w' : World} (h : Grow w w') {x : Handle} (hx : x.ok w) : x.ok w' := by
   cases x with
-  | arr s f => exact Nat.lt_of_lt_of_le hx h.arrs
+  | arr s f => exact sliceOk_grow h hx
   | str p => cases p with
     | none => trivial
     | some q => exact Nat.lt_of_lt_of_le hx h.strs
@@ -62,12 +74,15 @@ theorem findStrArg_lt {st : State} (hi : Inv st) {a : Option String} {q : Option
     · rename_i p hp; cases h; exact find_ok hi hp
     · cases h
 
-theorem findArr_lt {st : State} (hi : Inv st) {n : String} {s : Slice} {f : Bool} (h : findArr st n = some (s, f)) :
-    s.arr < st.w.arrs.length := by
+theorem findArr_ok {st : State} (hi : Inv st) {n : String} {s : Slice} {f : Bool} (h : findArr st n = some (s, f)) :
+    sliceOk st.w s := by
   unfold findArr at h
   split at h
   · rename_i s' f' hs; cases h; exact find_ok hi hs
   · cases h
+
+theorem findArr_lt {st : State} (hi : Inv st) {n : String} {s : Slice} {f : Bool} (h : findArr st n = some (s, f)) :
+    s.arr < st.w.arrs.length := (findArr_ok hi h).1
 
 theorem findArrArg_lt {st : State} (hi : Inv st) {a : Option String} {s : Slice} (h : findArrArg st a = some s) :
     s.arr < st.w.arrs.length := by
@@ -202,28 +217,35 @@ theorem exec_ok (iface : Bool) {st : State} (hi : Inv st) (op : Op) : ExecOk ifa
   cases op with
   | arr dst len vals =>
     simp only [exec]; split
-    · have h := allocArr_good hi.wf vals
-      exact execOk_good h.1 _ (new_ok (h := .arr { (st.w.allocArr vals).2 with len := len } true) h.2) _
+    · rename_i hlen
+      have h := allocArr_good hi.wf vals
+      exact execOk_good h.1 _ (new_ok (h := .arr { (st.w.allocArr vals).2 with len := len } true)
+        ⟨h.2.1, h.2.2.1, hlen⟩) _
     · trivial
   | sub dst src lo hi' =>
     simp only [exec]; split
     · rename_i s f hs
       split
-      · exact execOk_same hi _ (new_ok (h := .arr ⟨s.arr, s.off + lo, hi' - lo, s.cap - lo⟩ f) (findArr_lt (s := s) hi hs)) _
+      · rename_i hc
+        obtain ⟨hc1, hc2⟩ := hc
+        have ho := findArr_ok (s := s) hi hs
+        exact execOk_same hi _ (new_ok (h := .arr ⟨s.arr, s.off + lo, hi' - lo, s.cap - lo⟩ f)
+          ⟨ho.1, by have := ho.2.1; show s.off + lo + (s.cap - lo) ≤ (st.w.arrAt s.arr).length; omega, by show hi' - lo ≤ s.cap - lo; omega⟩) _
       · trivial
     · trivial
   | wr a i v =>
     simp only [exec]; split
     · rename_i s f hs
       split
-      · exact ⟨writeArr_wf hi.wf _ _ _, ⟨by simp [writeArr], Nat.le_refl _, Nat.le_refl _⟩, none_ok,
+      · exact ⟨writeArr_wf hi.wf _ _ _, ⟨by simp [writeArr], Nat.le_refl _, Nat.le_refl _,
+            fun b _ => writeArr_arrAt_len _ _ _ _ b⟩, none_ok,
           fun h => by simp [Op.isMutator] at h⟩
       · trivial
     · trivial
   | sfrom dst a =>
     simp only [exec]; split
     · rename_i s f hs
-      have h := allocStr_good hi.wf (findArr_lt hi hs)
+      have h := allocStr_good hi.wf (findArr_ok hi hs)
       exact execOk_good h.1 _ (new_ok (h := .str (some _)) h.2) _
     · trivial
   | toArr dst s =>
@@ -238,7 +260,7 @@ theorem exec_ok (iface : Bool) {st : State} (hi : Inv st) (op : Op) : ExecOk ifa
       · obtain ⟨i, rfl, rfl⟩ := hk
         have h := strRemoveI_wf hi.wf (findStr_lt hi hp) i
         simp only [execS1, if_true]
-        refine ⟨h.1, ⟨h.2.2.2.2, Nat.le_of_eq h.2.2.1.symm, Nat.le_of_eq (by rw [h.2.2.2.1])⟩, ?_,
+        refine ⟨h.1, ⟨h.2.2.2.2.1, Nat.le_of_eq h.2.2.1.symm, Nat.le_of_eq (by rw [h.2.2.2.1]), h.2.2.2.2.2⟩, ?_,
           fun hm => by simp [Op.isMutator] at hm⟩
         apply new_ok (h := .str (some _))
         show (st.w.strRemoveI p i).2 < _
@@ -363,7 +385,8 @@ theorem exec_ok (iface : Bool) {st : State} (hi : Inv st) (op : Op) : ExecOk ifa
       split
       · rename_i w' hw'
         have h := setSet_wf hi.wf (v := .int v) (by trivial) hw'
-        exact ⟨h.1, ⟨Nat.le_of_eq (by rw [h.2.1]), Nat.le_of_eq (by rw [h.2.2.1]), Nat.le_of_eq (by rw [h.2.2.2])⟩,
+        exact ⟨h.1, ⟨Nat.le_of_eq (by rw [h.2.1]), Nat.le_of_eq (by rw [h.2.2.1]), Nat.le_of_eq (by rw [h.2.2.2]),
+            fun b _ => by simp [arrAt, h.2.1]⟩,
           none_ok, fun hm => by simp [Op.isMutator] at hm⟩
       · exact ⟨hi.wf, (Le.refl _).grow, none_ok, fun hm => by simp [Op.isMutator] at hm⟩
     · trivial
@@ -378,7 +401,8 @@ theorem exec_ok (iface : Bool) {st : State} (hi : Inv st) (op : Op) : ExecOk ifa
           cases q with
           | none => simp only; split <;> trivial
           | some q' => exact hv q' rfl) hw'
-        exact ⟨h.1, ⟨Nat.le_of_eq (by rw [h.2.1]), Nat.le_of_eq (by rw [h.2.2.1]), Nat.le_of_eq (by rw [h.2.2.2])⟩,
+        exact ⟨h.1, ⟨Nat.le_of_eq (by rw [h.2.1]), Nat.le_of_eq (by rw [h.2.2.1]), Nat.le_of_eq (by rw [h.2.2.2]),
+            fun b _ => by simp [arrAt, h.2.1]⟩,
           none_ok, fun hm => by simp [Op.isMutator] at hm⟩
       · exact ⟨hi.wf, (Le.refl _).grow, none_ok, fun hm => by simp [Op.isMutator] at hm⟩
     · trivial
@@ -419,19 +443,19 @@ theorem exec_ok (iface : Bool) {st : State} (hi : Inv st) (op : Op) : ExecOk ifa
     simp only [exec]; split
     · rename_i p hp
       have f := httpAdd_frame ids hi.wf (findStr_lt hi hp)
-      exact ⟨f.wf, ⟨f.arrs.length_le, f.strsLen, f.sets.length_le⟩, none_ok, fun hm => by simp [Op.isMutator] at hm⟩
+      exact ⟨f.wf, Grow.of_prefix f.arrs f.strsLen f.sets.length_le, none_ok, fun hm => by simp [Op.isMutator] at hm⟩
     · trivial
   | hrem h ids =>
     simp only [exec]; split
     · rename_i p hp
       have f := httpRemove_frame ids hi.wf (findStr_lt hi hp)
-      exact ⟨f.wf, ⟨f.arrs.length_le, f.strsLen, f.sets.length_le⟩, none_ok, fun hm => by simp [Op.isMutator] at hm⟩
+      exact ⟨f.wf, Grow.of_prefix f.arrs f.strsLen f.sets.length_le, none_ok, fun hm => by simp [Op.isMutator] at hm⟩
     · trivial
   | hclear h =>
     simp only [exec]; split
     · rename_i p hp
       have f := httpClear_frame hi.wf p
-      exact ⟨f.wf, ⟨f.arrs.length_le, f.strsLen, f.sets.length_le⟩, none_ok, fun hm => by simp [Op.isMutator] at hm⟩
+      exact ⟨f.wf, Grow.of_prefix f.arrs f.strsLen f.sets.length_le, none_ok, fun hm => by simp [Op.isMutator] at hm⟩
     · trivial
   | bad => trivial
 
